@@ -209,7 +209,78 @@ def run_filters(desc, seed, res):
             pass
         except Exception as e:
             res.observe("set-filter-bad-type-other-exception", f"{bad!r}: {type(e).__name__}")
+    for bad in (int, str, object, "pushbutton", 5, None):
+        try:
+            g = QueryEventFilters(9, 1, bad)
+            next(g)
+            res.violation("C13/query-filter/bad-type-accepted", f"filter_type={bad!r} accepted", {})
+        except TypeError:
+            res.add("query_filter_bad_types_rejected")
+        except Exception as e:
+            res.observe("query-filter-bad-type-other-exception", f"{bad!r}: {type(e).__name__}")
+    if width == 8:
+        # plain integers (the sequence accepts any int): one byte on an 8-bit filter instance
+        for v in range(256):
+            sa, idx = (v * 3) % 64, v % 32
+            bus, dev, other = many_instances(sa, idx, 32, itype=1, filt=v ^ 0xFF, filter_bits=8)
+            dev.dtr0, dev.dtr1, dev.dtr2 = v ^ 0x55, 0xEE, 0xDD
+            res.evaluations += 1
+            res.distinct += 1
+            res.hit("plain_int_filters")
+            wit = {"sequence": "SetEventFilters", "filter": v, "form": "plain int"}
+            try:
+                got = bus.run_sequence(SetEventFilters(sa, idx, v))
+            except Exception as e:
+                res.violation(f"C13/set-filter/raised/{type(e).__name__}", f"plain int {v:#x}: {type(e).__name__}: {e}", wit)
+                continue
+            if dev.instances[idx].filter != v:
+                res.violation("C13/set-filter/instance-filter/8bit/plain-int", f"plain int filter {v:#x}: instance ends with "
+                              f"{dev.instances[idx].filter:#x}", wit)
+            elif got is None or int(got) != v:
+                res.violation("C13/set-filter/return/8bit", f"plain int filter {v:#x}: returned {got!r}", wit)
+        run_bad_rsp(res)
     res.sample({"sequence": "SetEventFilters/QueryEventFilters", "enum_width": width, "enums": [e.__name__ for e in enums]})
+
+
+def run_bad_rsp(res):
+    """The classifier every sequence relies on, over every response class and bus outcome: bad = nothing usable."""
+    import importlib
+    from dali import command, frame
+    from dali.device.helpers import check_bad_rsp
+    for m in ("gear.general", "gear.led", "gear.colour", "gear.emergency", "device.general", "device.pushbutton"):
+        importlib.import_module("dali." + m)
+    classes = sorted({c.response for c in command.Command._commands if c.response is not None}, key=lambda c: c.__qualname__)
+    res.hit("bad_rsp_checked")
+    if check_bad_rsp(None) is not True:
+        res.violation("C13/bad-rsp/none", "check_bad_rsp(None) is not True", {})
+    for cls in classes:
+        for kind, arg in [("none", None)] + [("clean", frame.BackwardFrame(n)) for n in (0, 1, 127, 254, 255)] + \
+                [("error", frame.BackwardFrameError(n)) for n in (0, 255, 0x55)]:
+            res.evaluations += 1
+            res.hit("bad_rsp_checked")
+            r = cls(arg)
+            if kind == "error":
+                want = True
+            elif kind == "clean":
+                want = False
+            elif issubclass(cls, command.YesNoResponse):
+                want = False            # silence is a valid 'no'
+            elif issubclass(cls, command.NumericResponse):
+                want = True
+            else:
+                want = bool(getattr(cls, "_expected", False))
+            try:
+                got = check_bad_rsp(r)
+            except ValueError:
+                continue                # an enumerated answer with an undefined code: reported by the response itself (C06)
+            except Exception as e:
+                res.violation(f"C13/bad-rsp/raised/{type(e).__name__}", f"check_bad_rsp({cls.__name__}({kind})) raised {type(e).__name__}",
+                              {"cls": cls.__name__, "outcome": kind})
+                continue
+            if got is not want:
+                res.violation(f"C13/bad-rsp/{kind}", f"check_bad_rsp({cls.__name__} on {kind} "
+                              f"{'' if arg is None else arg.as_integer}) is {got!r}, expected {want!r}",
+                              {"cls": cls.__name__, "outcome": kind})
 
 
 # --------------------------------------------------------------------------- schemes
